@@ -420,6 +420,16 @@ impl State {
                 'n' => if i < e { i += 1; format!("S{}", seq[i - 1]) } else { "N".into() },
                 'b' if de => if i < e { e -= 1; format!("S{}", seq[e]) } else { "N".into() },
                 'l' if ex => format!("V{}", e - i),
+                // size_hint: the remaining count must lie within it ("HE": an ExactSizeIterator, both bounds equal it)
+                'h' => format!("{}{}", if ex { "HE" } else { "H" }, e - i),
+                'k' | 'j' | 'K' => {
+                    let k = match ch { 'k' => 1usize, 'j' => 7, _ => usize::MAX };
+                    if k < e - i { i += k + 1; format!("S{}", seq[i - 1]) } else { i = e; "N".into() }
+                }
+                'r' | 'q' | 'R' if de => {
+                    let k = match ch { 'r' => 1usize, 'q' => 7, _ => usize::MAX };
+                    if k < e - i { e -= k + 1; format!("S{}", seq[e]) } else { e = i; "N".into() }
+                }
                 _ => "X".into(),
             });
         }
